@@ -28,6 +28,9 @@ func checkSyntaxError(err error, toks []lexer.Token, bad int, lx *stubLexer) {
 		for i := range toks {
 			verif.Assert(pe.Pos != toks[i].Pos || toks[i].Pos == (lexer.Position{}), "a truncated input is blamed on an earlier, innocent token")
 		}
+		for _, ep := range lx.eofPos {
+			verif.Assert(pe.Pos != ep, "a truncated input is blamed on an earlier, innocent token (the position the scanner attaches to the end of input)")
+		}
 	}
 	msg := err.Error()
 	verif.Assert(len(msg) > 0, "the diagnostic is empty")
